@@ -54,6 +54,8 @@ func TestVerif(t *testing.T) {
 		verifC10GroupQ(t, r, out)
 		// several transmissions failing while in flight together: the task must still end
 		verifConcurrentFailures(t, out)
+		// a flapping link: a change notified while the interface is being re-established
+		verifLinkFlap(t, r, out)
 	case "C11":
 		// nothing in virtual time: the network-namespace scenario (TestVerifNetns) is this
 		// package's part of C11
